@@ -54,6 +54,10 @@ pub struct TermsExp {
     pub field_ty: Ty,
     pub mixed_f64_keys: bool,
     pub asc: bool,
+    /// more distinct terms than the (documented default of the) per segment cut-off: a segment
+    /// may have cut something, so `doc_count_error_upper_bound` need not be 0. Only generated for
+    /// `_key` order with min_doc_count <= 1, where the cut-off cannot change buckets or counts.
+    pub maybe_cut: bool,
 }
 
 pub struct Env<'a> {
@@ -756,6 +760,7 @@ fn eval_terms(
     docs: &[usize],
     field: Fd,
     size: Option<u32>,
+    segment_size: Option<u32>,
     min_doc_count: Option<u64>,
     order: &Option<(OrdT, bool)>,
     missing: &Option<Value>,
@@ -787,6 +792,10 @@ fn eval_terms(
             }
         }
     }
+    // documented: segment_size defaults to 10 * size (and is never smaller than size)
+    let eff_size = size.unwrap_or(10);
+    let eff_segment_size = segment_size.unwrap_or(eff_size.saturating_mul(10)).max(eff_size);
+    let maybe_cut = entries.len() > eff_segment_size as usize;
     let mdc = min_doc_count.unwrap_or(1);
     if mdc == 0 && field.ty() == Ty::Str {
         for &d in env.all_docs {
@@ -863,6 +872,7 @@ fn eval_terms(
         field_ty: field.ty(),
         mixed_f64_keys: has_frac && has_int,
         asc,
+        maybe_cut,
     }))
 }
 
@@ -1120,14 +1130,14 @@ pub fn eval_agg(a: &Agg, docs: &[usize], env: &Env) -> Exp {
         Agg::Terms {
             field,
             size,
+            segment_size,
             min_doc_count,
             order,
             missing,
             show_err,
             approx,
             subs,
-            ..
-        } => eval_terms(env, docs, *field, *size, *min_doc_count, order, missing, *show_err, *approx, subs),
+        } => eval_terms(env, docs, *field, *size, *segment_size, *min_doc_count, order, missing, *show_err, *approx, subs),
         Agg::Filter { q, subs } => {
             let ds: Vec<usize> = docs.iter().cloned().filter(|&d| filter_matches(env.corpus, d, q)).collect();
             bucket_obj(vec![("doc_count", Exp::Int(ds.len() as i128))], eval_aggs_map(subs, &ds, env))
